@@ -69,7 +69,15 @@ pub fn construct(k: usize, i: usize, sp: &str) -> MDef {
         13 => iface(
             &n("ITuple", i),
             vec![],
-            vec![op("swap", vec![MParam::new("a", MType::prim("int32")), MParam::new("b", MType::seq(MType::prim("string")))], MRet::Tuple(vec![MParam::new("x", MType::prim("int32")), MParam::new("y", l("HE").opt())]))],
+            vec![
+                op("swap", vec![MParam::new("a", MType::prim("int32")), MParam::new("b", MType::seq(MType::prim("string")))], MRet::Tuple(vec![MParam::new("x", MType::prim("int32")), MParam::new("y", l("HE").opt())])),
+                // a return tuple whose LAST member is streamed (and whose first one is tagged)
+                op(
+                    "feed",
+                    vec![],
+                    MRet::Tuple(vec![MParam { tag: Some(MInt::dec(3)), ..MParam::new("head", MType::prim("int32").opt()) }, MParam { stream: true, ..MParam::new("rest", MType::prim("uint8")) }]),
+                ),
+            ],
         ),
         14 => {
             let mut p1 = MParam::new("a", MType::prim("int32").opt());
